@@ -150,6 +150,18 @@ pub struct WorldOpts {
   pub passthrough_jsr: bool,
 }
 
+/// npm resolver of the world: absent (the loader is asked), or present with failing requirements /
+/// failing dependency-graph resolution
+#[derive(Debug, Clone, Deserialize, Serialize, Default)]
+pub struct NpmSpec {
+  #[serde(default)]
+  pub on: bool,
+  #[serde(default)]
+  pub failing: Vec<String>,
+  #[serde(default, rename = "depFail")]
+  pub dep_fail: bool,
+}
+
 #[derive(Debug, Clone, Deserialize, Serialize)]
 pub struct World {
   #[serde(deserialize_with = "de_map")]
@@ -168,6 +180,8 @@ pub struct World {
   pub lock: LockSpec,
   #[serde(default)]
   pub opts: WorldOpts,
+  #[serde(default)]
+  pub npm: NpmSpec,
 }
 
 impl World {
@@ -216,6 +230,9 @@ impl World {
     }
     let r = self.url_of(referrer);
     let t = self.url_of(target);
+    if t.starts_with("npm:") {
+      return t;
+    }
     let origin = |u: &str| u.rfind('/').map(|i| u[..i].to_string()).unwrap();
     let name = t.rsplit('/').next().unwrap().to_string();
     if origin(&r) == origin(&t) {
@@ -314,7 +331,7 @@ impl<'a> WorldLoader<'a> {
     match resp.k.as_str() {
       "missing" => Ok(None),
       "err" => Err(LoadError::Other(Arc::new(deno_error::JsErrorBox::generic("loader failure")))),
-      "external" => Ok(Some(LoadResponse::External { specifier: specifier.clone() })),
+      "external" | "npm" => Ok(Some(LoadResponse::External { specifier: specifier.clone() })),
       "redirect" => Ok(Some(LoadResponse::Redirect { specifier: self.world.spec_of(&resp.to) })),
       "mod" => {
         let fin = match &resp.fin {
@@ -352,5 +369,46 @@ impl Loader for WorldLoader<'_> {
     });
     let r = self.respond(specifier);
     Box::pin(async move { r })
+  }
+}
+
+
+/// NpmResolver of a world: requirements listed in `failing` fail; with `dep_fail` the dependency-graph resolution
+/// fails whenever every individual requirement resolved. Every call is logged.
+#[derive(Debug)]
+pub struct WorldNpmResolver {
+  pub failing: Vec<String>,
+  pub dep_fail: bool,
+  pub log: std::sync::Mutex<Vec<serde_json::Value>>,
+}
+
+impl WorldNpmResolver {
+  pub fn new(n: &NpmSpec) -> Self {
+    Self { failing: n.failing.clone(), dep_fail: n.dep_fail, log: Default::default() }
+  }
+}
+
+#[async_trait::async_trait(?Send)]
+impl deno_graph::source::NpmResolver for WorldNpmResolver {
+  fn load_and_cache_npm_package_info(&self, package_name: &str) {
+    self.log.lock().unwrap().push(serde_json::json!({"ev": "npm_prefetch", "name": package_name}));
+  }
+
+  async fn resolve_pkg_reqs(&self, package_reqs: &[deno_semver::package::PackageReq]) -> deno_graph::source::NpmResolvePkgReqsResult {
+    let results: Vec<Result<(), deno_graph::NpmLoadError>> = package_reqs
+      .iter()
+      .map(|r| {
+        if self.failing.iter().any(|f| deno_semver::package::PackageReq::from_str(f).map(|x| &x == r).unwrap_or(false)) {
+          Err(deno_graph::NpmLoadError::PackageReqResolution(Arc::new(deno_error::JsErrorBox::generic("no matching version"))))
+        } else {
+          Ok(())
+        }
+      })
+      .collect();
+    let all_ok = results.iter().all(|r| r.is_ok());
+    let dep = if self.dep_fail && all_ok { Err(Arc::new(deno_error::JsErrorBox::generic("dependency graph resolution failed")) as Arc<dyn deno_error::JsErrorClass>) } else { Ok(()) };
+    self.log.lock().unwrap().push(serde_json::json!({"ev": "npm_resolve", "reqs": package_reqs.iter().map(|r| r.to_string()).collect::<Vec<_>>(),
+      "ok": results.iter().map(|r| r.is_ok()).collect::<Vec<_>>(), "dep": dep.is_ok()}));
+    deno_graph::source::NpmResolvePkgReqsResult { results, dep_graph_result: dep }
   }
 }
